@@ -99,6 +99,7 @@ def run(ctx):
         ctx.stat("S1.%s.upper_bound_stores" % short, k)
         if k == 0:
             raise CheckError("%s: no store to the upper bound inside the narrowing loop" % short)
+    lower_bound_needs_strictly_less(ctx, kernels)
     # S2
     fk = m.fn(S + "find_key_simd")
     calls = [c for c in fk.calls if c.name.startswith(S) and c.name.endswith("_avx2")]
@@ -195,3 +196,49 @@ def found_needs_full_compare(ctx):
         ctx.ob("S5.FOUND-NEEDS-FULL-COMPARE", "find_key_simd#%d" % k, ok, "Found is returned only after a full-key comparison" if ok else
                "find_key_simd returns Found (L%s) on the strength of the 4-byte prefix alone: keys that differ only in trailing zero bytes "
                "(or in length) are reported as present at another key's slot" % s[3], "%s:%s" % (f.file, s[3]))
+
+
+def lower_bound_needs_strictly_less(ctx, kernels):
+    """S1b LOWER-BOUND-NEEDS-LESS: the lower bound may be raised past the start of a batch only by the number of lanes strictly below
+    the target, and only when that number is not zero — with zero such lanes the batch may begin inside a run of equal prefixes that
+    started before it.  Every `base + count` value that flows into the lower bound is computed under the true side of a `count > 0`
+    (or != 0) test."""
+    m = ctx.m
+    for f in kernels:
+        short = f.id.rsplit("::", 1)[-1]
+        left, right = result_bounds(f)[-1]
+        # locals that flow into `left` through copies
+        flows = {left}
+        changed = True
+        while changed:
+            changed = False
+            for l in list(flows):
+                for d in f.defs().get(l, []):
+                    if d[0] == "stmt" and d[3][0] == "use":
+                        q = operand_place(d[3][1])
+                        if q is not None and q[0] not in flows:
+                            flows.add(q[0])
+                            changed = True
+        k = 0
+        for bb, b in enumerate(f.blocks):
+            for st in b["s"]:
+                if st[0] == "=" and st[1][0] in flows and st[2][0] == "bin" and st[2][1] in ("Add", "AddWithOverflow") and st[2][3][0] != "k":
+                    # base + count
+                    guarded = False
+                    for d in f.dominators().get(bb, ()):
+                        t = f.blocks[d]["t"]
+                        if t[0] != "switch" or t[2] != "bool" or d == bb:
+                            continue
+                        pl = operand_place(t[1])
+                        kk, p, neg = f.origin(pl[0]) if pl and not pl[1] else (None, None, False)
+                        if kk == "rvalue" and p[0] == "bin" and p[1] in ("Gt", "Ne") and p[3][0] == "k" and p[3][4] == 0 and not neg:
+                            true_t = [t[4]] if [x for x in t[3] if x[0] == 0] else [x[1] for x in t[3] if x[0] == 1]
+                            if true_t and f.dominates(true_t[0], bb):
+                                guarded = True
+                    # the tuple temp of AddWithOverflow is in flows only via `.0`; accept both shapes
+                    ctx.ob("S1b.LOWER-BOUND-NEEDS-LESS", "%s#%d" % (short, k), guarded,
+                           "the raised lower bound is computed under a `count > 0` test" if guarded else
+                           "the lower bound of the search window is raised to base + count (L%s) without a `count > 0` test: when no lane is strictly "
+                           "below the target the batch start is taken as the bound and equal-prefix slots before it are lost" % st[3], "%s:%s" % (f.file, st[3]))
+                    k += 1
+        ctx.stat("S1b.%s.raise_sites" % short, k)
